@@ -232,4 +232,187 @@ theorem pts_dead (g : Nat → Option Nat) : ∀ (cnt f j : Nat) (k : ThetaSt OSt
         exact hd
 end Loop1
 
+
+/-! ### the main loop: recomputation of `len_count` -/
+
+theorem levelSum_none (lv : Nat → Option Nat) : ∀ (L : Nat), levelSum lv L = none → ∃ x, x < L ∧ lv x = none := by
+  intro L
+  induction L with
+  | zero => intro h; simp [levelSum] at h
+  | succ L ih =>
+    intro h
+    simp only [levelSum] at h
+    cases h1 : levelSum lv L with
+    | none => obtain ⟨x, hx, hn⟩ := ih h1; exact ⟨x, by omega, hn⟩
+    | some a =>
+      cases h2 : lv L with
+      | none => exact ⟨L, by omega, h2⟩
+      | some b => simp [h1, h2] at h
+
+section Loop4
+variable (P : Params) (oracle : Nat → Bool) (fuel : Nat) (ea : Int)
+
+theorem loop4_dead (lv : Nat → Option Nat) : ∀ (cnt f j : Nat) (k : ThetaSt OSt), k.fault = none → k.obs.bad = false →
+    k.j = (j : Int) → k.len_list = (j : Int) + (cnt : Int) → k.level.size = (P.n : Int) →
+    (∀ i : Nat, k.level.get (i : Int) = (lv i).map Int.ofNat) →
+    (∃ x, j ≤ x ∧ x < j + cnt ∧ (P.n ≤ x ∨ lv x = none)) →
+    Dead (whileF (ThetaSt.live obs)
+      (fun s => match theta_chain_comput_strategy_loop4_cond obs P.row oracle fuel P.n ea s with | .ok b => b | .error _ => true)
+      (fun s => match theta_chain_comput_strategy_loop4_cond obs P.row oracle fuel P.n ea s with
+        | .ok _ => theta_chain_comput_strategy_loop4_body obs P.row oracle fuel P.n ea s | .error f => s.fail f)
+      (fun s => s.fail .fuel) f k) := by
+  intro cnt
+  induction cnt with
+  | zero => intro f j k _ _ _ _ _ _ hx; obtain ⟨x, h1, h2, _⟩ := hx; omega
+  | succ cnt ih =>
+    intro f j k hf hb hj hl hsz hg hx
+    have hlive : ThetaSt.live obs k = true := by simp [ThetaSt.live, obs, hf, hb]
+    have hcond : (ThetaSt.live obs k && (match theta_chain_comput_strategy_loop4_cond obs P.row oracle fuel P.n ea k with
+        | .ok b => b | .error _ => true)) = true := by
+      simp [theta_chain_comput_strategy_loop4_cond, hj, hl, hlive]; omega
+    cases f with
+    | zero =>
+      simp only [whileF, hcond, if_true]
+      exact dead_of_fault _ .fuel rfl
+    | succ f' =>
+      rw [whileF_step _ _ _ _ _ _ hcond]
+      by_cases hgood : j < P.n ∧ (lv j).isSome = true
+      · obtain ⟨b, hb1⟩ := Option.isSome_iff_exists.1 hgood.2
+        have hin : k.level.inb (j : Int) = true := by simp [IArr.inb, hsz]; omega
+        have hbody : (match theta_chain_comput_strategy_loop4_cond obs P.row oracle fuel P.n ea k with
+            | .ok _ => theta_chain_comput_strategy_loop4_body obs P.row oracle fuel P.n ea k | .error f => k.fail f) =
+            { k with j := ((j + 1 : Nat) : Int), len_count := k.len_count + (b : Int) } := by
+          simp [theta_chain_comput_strategy_loop4_cond, theta_chain_comput_strategy_loop4_body, ThetaSt.step, ThetaSt.live, obs,
+            hf, hb, hj, rdArr, hin, hg, hb1]
+        rw [hbody]
+        obtain ⟨x, h1, h2, h3⟩ := hx
+        have hxj : x ≠ j := by
+          intro h; subst h
+          rcases h3 with h3 | h3
+          · omega
+          · rw [hb1] at h3; cases h3
+        exact ih f' (j + 1) _ hf hb rfl (by simp only []; rw [hl]; push_cast; omega) hsz hg ⟨x, by omega, by omega, h3⟩
+      · have hbody : Dead (match theta_chain_comput_strategy_loop4_cond obs P.row oracle fuel P.n ea k with
+            | .ok _ => theta_chain_comput_strategy_loop4_body obs P.row oracle fuel P.n ea k | .error f => k.fail f) := by
+          by_cases hjn : j < P.n
+          · have hin : k.level.inb (j : Int) = true := by simp [IArr.inb, hsz]; omega
+            have hnone : lv j = none := by
+              cases hq : lv j with
+              | none => rfl
+              | some b => exact absurd ⟨hjn, by simp [hq]⟩ hgood
+            simp [Dead, theta_chain_comput_strategy_loop4_cond, theta_chain_comput_strategy_loop4_body, ThetaSt.step,
+              ThetaSt.live, obs, hf, hb, hj, rdArr, hin, hg, hnone, ThetaSt.fail]
+          · have hin : k.level.inb (j : Int) = false := by simp [IArr.inb, hsz]; omega
+            simp [Dead, theta_chain_comput_strategy_loop4_cond, theta_chain_comput_strategy_loop4_body, ThetaSt.step,
+              ThetaSt.live, obs, hf, hb, hj, rdArr, hin, ThetaSt.fail]
+        rw [whileF_dead _ _ _ _ _ hbody]
+        exact hbody
+end Loop4
+
+
+/-! ### the main loop: the inner `while` -/
+
+theorem pushBody_err_iff (P : Params) (s : St) (b : Nat) (he0 : s.err = none) :
+    (pushBody P s b).err ≠ none ↔
+      ¬ (idxOK s.lenList P.n = true ∧ idxOK (s.lenList - 1) P.n = true ∧ (s.q (s.lenList - 1).toNat).isSome = true) := by
+  unfold pushBody
+  by_cases h : (idxOK s.lenList P.n && idxOK (s.lenList - 1) P.n) = true
+  · have h' := h
+    simp only [Bool.and_eq_true] at h'
+    simp only [h, if_true, h'.1, h'.2, true_and]
+    cases ho : s.q (s.lenList - 1).toNat with
+    | none => simp [St.fail]
+    | some o => simp [St.emit, he0]
+  · simp only [h, if_false]
+    simp only [Bool.and_eq_true] at h
+    simp [St.fail]
+    intro h1 h2; exact absurd ⟨h1, h2⟩ h
+
+section Loop5
+variable (P : Params) (oracle : Nat → Bool) (fuel : Nat) (ea : Int)
+
+theorem push_dead (k : ThetaSt OSt) (m : St) (R : Rel P k m) (hs : m.index < P.row.length) (b : Nat)
+    (he : (pushBody P m b).err ≠ none) :
+    Dead (theta_chain_comput_strategy_loop5_body obs P.row oracle fuel P.n ea k) := by
+  have hc := (pushBody_err_iff P m b R.me).1 he
+  have hf := R.kf
+  have hb := R.kb
+  have hrd := rdRow_ok P.row m.index hs
+  have hbad : (ev k.obs 9 [3, k.len_list, 3, k.len_list - 1, ((P.row[m.index] : Nat) : Int)]).bad = true := by
+    apply ev_dblQ_bad
+    intro h
+    apply hc
+    obtain ⟨h1, h2, h3⟩ := h
+    simp only [OSt.inb, R.s3, R.ll, Bool.and_eq_true, decide_eq_true_eq] at h1 h2
+    have hcn : m.lenList - 1 = (((m.lenList - 1).toNat : Nat) : Int) := by omega
+    refine ⟨by simp [idxOK]; omega, by simp [idxOK]; omega, ?_⟩
+    rw [R.ll, hcn, R.a3] at h3
+    exact h3
+  simp [Dead, theta_chain_comput_strategy_loop5_body, ThetaSt.step, ThetaSt.live, obs, hf, hb, R.ix, hrd, EvKind.dblIter, hbad]
+
+theorem strat_dead (k : ThetaSt OSt) (m : St) (R : Rel P k m) (hs : ¬ m.index < P.row.length) :
+    Dead (theta_chain_comput_strategy_loop5_body obs P.row oracle fuel P.n ea k) := by
+  obtain ⟨e, hre⟩ := rdRow_err P.row m.index (by omega)
+  simp [Dead, theta_chain_comput_strategy_loop5_body, ThetaSt.step, ThetaSt.live, obs, R.kf, R.kb, R.ix, hre, ThetaSt.fail]
+
+theorem while_dead (i : Nat) : ∀ (n f : Nat) (k : ThetaSt OSt) (m : St), Rel P k m → k.i = (i : Int) →
+    P.row.length - m.index ≤ n → (whileLoop P i m).err ≠ none →
+    Dead (whileF (ThetaSt.live obs)
+        (fun s => match theta_chain_comput_strategy_loop5_cond obs P.row oracle fuel P.n ea s with | .ok b => b | .error _ => true)
+        (fun s => match theta_chain_comput_strategy_loop5_cond obs P.row oracle fuel P.n ea s with
+          | .ok _ => theta_chain_comput_strategy_loop5_body obs P.row oracle fuel P.n ea s | .error f => s.fail f)
+        (fun s => s.fail .fuel) f k) := by
+  intro n
+  induction n with
+  | zero =>
+    intro f k m R hi hn he
+    have hm : P.m = (P.n : Int) - 1 - (P.adj : Int) := rfl
+    by_cases hb : m.lenCount = P.m - 1 - (i : Int)
+    · rw [whileLoop_exit P i m R.me hb] at he; exact absurd R.me he
+    · have hlive : ThetaSt.live obs k = true := by simp [ThetaSt.live, obs, R.kf, R.kb]
+      have hcond : (ThetaSt.live obs k && (match theta_chain_comput_strategy_loop5_cond obs P.row oracle fuel P.n ea k with
+          | .ok b => b | .error _ => true)) = true := by
+        simp [theta_chain_comput_strategy_loop5_cond, R.lc, hi, R.ad, hlive]
+        intro h; apply hb; rw [hm]; omega
+      cases f with
+      | zero => simp only [whileF, hcond, if_true]; exact dead_of_fault _ .fuel rfl
+      | succ f' =>
+        rw [whileF_step _ _ _ _ _ _ hcond]
+        have hbody : (match theta_chain_comput_strategy_loop5_cond obs P.row oracle fuel P.n ea k with
+            | .ok _ => theta_chain_comput_strategy_loop5_body obs P.row oracle fuel P.n ea k | .error f => k.fail f) =
+            theta_chain_comput_strategy_loop5_body obs P.row oracle fuel P.n ea k := by
+          simp [theta_chain_comput_strategy_loop5_cond]
+        rw [hbody]
+        have hd := strat_dead P oracle fuel ea k m R (by omega)
+        rw [whileF_dead _ _ _ _ _ hd]; exact hd
+  | succ n ih =>
+    intro f k m R hi hn he
+    have hm : P.m = (P.n : Int) - 1 - (P.adj : Int) := rfl
+    by_cases hb : m.lenCount = P.m - 1 - (i : Int)
+    · rw [whileLoop_exit P i m R.me hb] at he; exact absurd R.me he
+    · have hlive : ThetaSt.live obs k = true := by simp [ThetaSt.live, obs, R.kf, R.kb]
+      have hcond : (ThetaSt.live obs k && (match theta_chain_comput_strategy_loop5_cond obs P.row oracle fuel P.n ea k with
+          | .ok b => b | .error _ => true)) = true := by
+        simp [theta_chain_comput_strategy_loop5_cond, R.lc, hi, R.ad, hlive]
+        intro h; apply hb; rw [hm]; omega
+      cases f with
+      | zero => simp only [whileF, hcond, if_true]; exact dead_of_fault _ .fuel rfl
+      | succ f' =>
+        rw [whileF_step _ _ _ _ _ _ hcond]
+        have hbody : (match theta_chain_comput_strategy_loop5_cond obs P.row oracle fuel P.n ea k with
+            | .ok _ => theta_chain_comput_strategy_loop5_body obs P.row oracle fuel P.n ea k | .error f => k.fail f) =
+            theta_chain_comput_strategy_loop5_body obs P.row oracle fuel P.n ea k := by
+          simp [theta_chain_comput_strategy_loop5_cond]
+        rw [hbody]
+        by_cases hs : m.index < P.row.length
+        · by_cases hpe : (pushBody P m P.row[m.index]).err = none
+          · rw [whileLoop_push P i m R.me hb hs] at he
+            obtain ⟨R', hi'⟩ := push_sim P oracle fuel ea k m R hs hpe
+            exact ih f' _ _ R' (by rw [hi', hi]) (by simp only []; omega) he
+          · have hd := push_dead P oracle fuel ea k m R hs _ hpe
+            rw [whileF_dead _ _ _ _ _ hd]; exact hd
+        · have hd := strat_dead P oracle fuel ea k m R hs
+          rw [whileF_dead _ _ _ _ _ hd]; exact hd
+end Loop5
+
 end SqiProofs.SkelThetaConv
